@@ -26,6 +26,10 @@ type refBag struct {
 	// ghosts: names that a row carried earlier (or that were mentioned in an argument). None of
 	// them may resolve through a by-name lookup unless a row carries it now.
 	ghosts []string
+	// noIndex makes c01Check skip the by-name access paths. Only H_C01_rename_then sets it, for
+	// the check between a renaming and the operation that follows, so that the consequences of a
+	// name index that was not kept in step become visible one operation later.
+	noIndex bool
 }
 
 func newRefBag(aligned bool, alphabet int) *refBag {
@@ -435,6 +439,10 @@ func c01Check(sb SeqBag, m *refBag, ctx string) {
 	verifAssert(iter, ctx+": iteration gives the residues of the rows")
 
 	// (iii) name-based access paths
+	if m.noIndex {
+		verifAssert(sb.Alphabet() == m.alphabet, ctx+": alphabet equals the model")
+		return
+	}
 	byName := true
 	for i := 0; i < n; i++ {
 		nm := m.rows[i].name
